@@ -28,11 +28,11 @@ RULES = [
 REQ_I = 'VX_I() && *ec_p == 0 && vx_toks == 0 && vx_top.index_ < SIZE_MAX'
 ASG = '*ec_p, self->nesting_depth_, vx_depth, vx_top, vx_pushes, vx_pops, vx_m_kind, vx_m_st, vx_m_depth, vx_below_kind, vx_bad, vx_toks'
 def value_contract(what):
-    return [('requires', REQ_I), ('requires', 'vx_expects_value()'), ('assigns', ASG),
+    return [('requires', REQ_I), ('requires', 'vx_value_may_follow()'), ('assigns', ASG),
             ('ensures', '[C08] %s: the output stays a prefix of a well-formed JSON text (a comma is written exactly between the elements of an array), the representation invariant is kept' % what, 'VX_I()'),
             ('ensures', '[C08] exactly one value is written, preceded by a comma iff it is not the first element of its array', 'vx_m_st == S_AFTER_VALUE && vx_toks >= 1 && vx_toks <= 2 && vx_depth == __CPROVER_old(vx_depth)')]
 def begin_contract(kind, k):
-    return [('requires', REQ_I + ' && self->max_nesting_depth_ >= 0 && self->max_nesting_depth_ < INT_MAX'), ('requires', 'vx_expects_value()'), ('assigns', ASG),
+    return [('requires', REQ_I + ' && self->max_nesting_depth_ >= 0 && self->max_nesting_depth_ < INT_MAX'), ('requires', 'vx_value_may_follow()'), ('assigns', ASG),
             ('ensures', '[C10][C08] a container that would exceed max_nesting_depth is refused before anything is written', '__CPROVER_old(self->nesting_depth_) >= self->max_nesting_depth_ ==> (*ec_p == json_errc_max_nesting_depth_exceeded && vx_toks == 0 && vx_pushes == 0)'),
             ('ensures', '[C10][C08] otherwise the %s is opened: the output stays a prefix of a well-formed JSON text, invariant kept one level deeper' % kind,
              '__CPROVER_old(self->nesting_depth_) < self->max_nesting_depth_ ==> (*ec_p == 0 && VX_I() && vx_depth == __CPROVER_old(vx_depth) + 1 && vx_m_kind == %s && vx_m_st == S_EMPTY)' % k)]
